@@ -64,6 +64,28 @@ def strPrefixSelect (cwd : List Str) (paths : List Str) : List Str :=
 def guardPathFromCwd (root cwd : List Str) (dest : Str) (src : List Str) : List Str :=
   root ++ cwd ++ copyDest cwd dest src
 
+/-! ## spelling a root-relative path from inside a directory -/
+
+/-- the component `..` -/
+def dotdot : Str := ['.', '.']
+
+/-- number of leading components two paths share -/
+def commonLen : List Str → List Str → Nat
+  | a :: as, b :: bs => if a = b then commonLen as bs + 1 else 0
+  | _, _ => 0
+
+/-- the climbing spelling of the root-relative path `D` for somebody standing in `cwd`: one `..`
+    for every component of `cwd` that `D` does not share, then the rest of `D`
+    (`other/a.txt` from `data/raw` is `../../other/a.txt`, `data/clean/b.txt` is `../clean/b.txt`) -/
+def relTo (cwd D : List Str) : List Str :=
+  List.replicate (cwd.length - commonLen cwd D) dotdot ++ D.drop (commonLen cwd D)
+
+/-- NOT the code: `XvcPath::new` as a plain join of the root-relative current directory and the
+    given path, dropping only empty and `.` components (what `RelativePathBuf::from_path` does) and
+    keeping `..`.  Kept only for `C18_plain_join_destination_differs`. -/
+def xvcPathJoin (cwd : List Str) (p : Str) : List Str :=
+  (cwd ++ splitSlash p).filter (fun c => !(c = [] || c = ['.']))
+
 /-- a destination argument without its directory marker -/
 def stripSlash (d : Str) : Str := if endsWithSlash d then d.dropLast else d
 
